@@ -62,7 +62,7 @@ CHECKS = {
    text="n real nodes of one flavour (core, Gnosis, Shutter-service) exchange the bytes their code produces; for n=3,t=2 every triggered subset and every causally feasible per-node order of {own trigger, arrival of each shares message (kept or lost, <= n-t lost)} x keys-message placement is executed, plus sampled schedules for n<=5 with duplicates and two identities: every honest message must be accepted by honest peers (and Gnosis keys messages by the access node), every stored key must be the correct one, and whenever a keyper derived the key every node must store it at quiescence. Two liveness gaps under message loss are recorded as known findings.",
    note="Go toolchain; pgmem (Snapshot/Restore per schedule); gossipnet (libp2p replaced by direct delivery); fixtures.EonKeys; verif hooks", ref="§3 C03"),
  "C08": dict(cat="fault_enumeration", tech="enumeration of process crashes at every database round trip (before the request / after the commit) of a complete real DKG run; OnCommit sync-position monitor; chain-side transaction log checks; twin comparison with the crash-free run",
-   text="Three keypers made of repository code only (SyncAppWithDB, handleOnChainChanges, SendShutterMessages with the real RPCMessageSender) run a complete DKG over the real shuttermint app; for each keyper a crash is injected before each of its ~410 database round trips and after each of its ~30 committing ones, followed by a restart on the same database (thorough: pairs of crashes). Checked: sync position advances by exactly one block per commit, never two different commitments per eon, every poly eval on chain verifies against the published commitment, outbox drained, same DKG outcome, same final database state and same order of accepted messages as the crash-free twin.",
+   text="Three keypers made of repository code only (SyncAppWithDB, handleOnChainChanges, SendShutterMessages with the real RPCMessageSender) run a complete DKG over the real shuttermint app; for each keyper a crash is injected before each of its ~410 database round trips and after each of its ~30 committing ones, followed by a restart on the same database (thorough: pairs of crashes). Three block schedules: one block per round of steps; every transaction alone in its block (blocks whose only DKG event is one evaluation, accusation ...; quick: one keyper); one block per round with a harness-played third keyper that deals a wrong evaluation, accuses falsely and never apologises, so that the swept run contains accusations and an apology. Checked: sync position advances by exactly one block per commit, never two different commitments per eon, every poly eval on chain verifies against the published commitment, outbox drained, same DKG outcome, all keypers hold the same eon key, same final database state and same order of accepted messages as the crash-free twin (block-per-transaction schedule: same DKG messages in order and same message set, because heights there depend on timing).",
    note="Go toolchain; pgmem fault plans (committed => durable; frozen connections after the crash point); smchain (harness-chosen block boundaries); dkgsim; keyper verif hooks", ref="§3 C08"),
  "C07": dict(cat="fault_enumeration", tech="complete DKG runs with harness-played Byzantine keypers (exhaustive strategy product for n=3,t=2; sampled n=4,5) and seeded block schedules; post-run monitor over the honest keypers' dkg_result rows: cross-keyper equality, secret-share/public-share pairing check, trial threshold decryption with every t-subset",
    text="Honest keypers are repository code only (SyncAppWithDB, handleOnChainChanges, SendShutterMessages) over the real shuttermint app; Byzantine keypers are played by the harness with the library's PureDKG plus a strategy (commitment correct/none/wrong degree/duplicate, per-victim evaluation correct/wrong/none, false accusation, apology correct/wrong/none, in phase/after phase; sampled families add undecryptable and non-canonical evaluations, early accusations, unsolicited apologies, wrong-eon and outsider-naming messages). For every finished eon: all honest keypers reporting success hold the same eon public key and share vector, each secret share verifies against its public share, every t-subset of them decrypts a trial message; all-honest runs whose dealing messages landed in phase must all succeed; on-chain result votes equal the stored rows.",
